@@ -75,6 +75,8 @@ class Net:
                              spilog=spilog, node_id=spec.get("node_id"))
             for attr, val in spec.get("attrs", {}).items():
                 setattr(n, attr, val)
+            for attr, val in spec.get("attr_seq", ()):  # a history of attribute assignments, in order
+                setattr(n, attr, val)
             if spec.get("rebegin") or "pre_addr" in spec:
                 n.node_address = spec["addr"]  # (re-)assignment after construction, as a mesh renewal does
             self.nodes[key] = n
